@@ -19,7 +19,10 @@ def run_case(ty, base, refs):
     import d42
     recv0 = am.g_bare(ty)
     if base:
-        recv0 = am.g_call(recv0, base[0])
+        try:
+            recv0 = am.g_call(recv0, base[0])
+        except Exception:
+            return None
     perms = list(itertools.permutations(range(len(refs))))
     outs = []
     results = []
@@ -65,7 +68,13 @@ def main(chk):
             continue
         n += 1
         ev = {"id": n, "ty": str(st["ty"]), "base": st["base"], "refs": refs}
-        ev.update(run_case(ev["ty"], ev["base"], refs))
+        rc = run_case(ev["ty"], ev["base"], refs)
+        if rc is None:
+            chk.count("base_not_buildable")
+            chk.drift += 1
+            n -= 1
+            continue
+        ev.update(rc)
         events.append(ev)
         chk.count("sets_of_%d" % len(refs))
         chk.count("type_" + ev["ty"])
